@@ -69,21 +69,31 @@ fn is_helper(name: &str) -> bool {
 
 #[derive(Clone, Debug)]
 pub struct ItemsCase {
+    /// (kind, annotated, module depth)
     pub items: Vec<(&'static str, bool, usize)>,
+    /// spelling of the annotation path per item (0 bare, 1 typeshare::typeshare, 2 ::typeshare::typeshare)
+    pub paths: Vec<usize>,
     pub lang: Lang,
 }
 
 pub fn gen_items(ch: &mut Chooser, max_items: usize) -> ItemsCase {
     let n = 1 + ch.choose("nitems", max_items);
     let mut items = Vec::new();
+    let mut paths = Vec::new();
     for _ in 0..n {
         let k = *ch.pick("kind", &KINDS);
-        let annotated = !ch.flag("unannotated");
+        let ann = ch.choose("annotation", 4); // 0 bare, 1 none, 2 and 3 path-qualified
+        let annotated = ann != 1;
         let m = ch.choose("mod_depth", 3);
         items.push((k, annotated, m));
+        paths.push(match ann {
+            2 => 1,
+            3 => 2,
+            _ => 0,
+        });
     }
     let lang = *ch.pick("lang", &ALL_LANGS);
-    ItemsCase { items, lang }
+    ItemsCase { items, paths, lang }
 }
 
 pub fn items_program(c: &ItemsCase) -> File {
@@ -91,6 +101,7 @@ pub fn items_program(c: &ItemsCase) -> File {
     for (i, (k, ann, m)) in c.items.iter().enumerate() {
         let mut it = make_item(i, k);
         it.annotated = *ann;
+        it.annotation_path = c.paths[i];
         it.mods = MODS[*m].iter().map(|s| s.to_string()).collect();
         its.push(it);
     }
@@ -462,7 +473,7 @@ pub fn run(args: &[String]) -> i32 {
             report::threads(),
             u64::MAX,
         );
-        merge(&mut rep, "items", accs, &stats, json!({"max_items": max_items, "item_kinds": KINDS, "annotated": [true, false], "module_depths": [0, 1, 2], "languages": 6}));
+        merge(&mut rep, "items", accs, &stats, json!({"max_items": max_items, "item_kinds": KINDS, "annotation": ["#[typeshare]", "none", "#[typeshare::typeshare]", "#[::typeshare::typeshare]"], "module_depths": [0, 1, 2], "languages": 6}));
     }
     {
         let (accs, stats) = explore(
